@@ -35,6 +35,16 @@ import struct
 
 from vf.common import iter_cases, case_rng, h64, split, short_tb, tb_sites
 
+
+def safe(fn, *a):
+    """formatting of library objects must never take the shard down (their
+    __repr__ runs library code)"""
+    try:
+        return fn(*a)
+    except Exception as x:      # noqa
+        return f'<{type(x).__name__} while formatting>'
+
+
 LEVEL = 'exploration'
 RULE = ("seeded random programs as data (vf/gen_graph.py:gen_program_c02) of "
         "kinds plain / mc (multichannel expansion, nested lists) / wf (width-"
@@ -319,8 +329,10 @@ def compare_desc(desc, exp, acc):
         out.append(('has-gate', f'{desc.has_gate} != {exp["has_gate"]}'))
     for what, lst in (('in', desc.inputs), ('out', desc.outputs)):
         e = exp[what]
-        g = [(io_.rate, io_.channels, io_.starting_channel, io_.type.__name__)
-             for io_ in lst]
+        g = [(io_.rate, io_.channels,
+              io_.starting_channel if isinstance(
+                  io_.starting_channel, (str, int, float)) else '<unit>',
+              getattr(io_.type, '__name__', '?')) for io_ in lst]
         if [(a, b, dd) for a, b, _, dd in g] != [(a, b, dd) for a, b, _, dd in e]:
             out.append((f'{what}puts', f'{g} != {e}'))
             continue
@@ -375,10 +387,14 @@ def run_shard(spec, acc):
         try:
             sd = gg.build(prog)
         except Exception as e:
-            if invalid:
+            if invalid and isinstance(e, (ValueError, TypeError)):
                 acc.count('invalid_rejected')
                 acc.count('invalid_rejected_' + kind.split(':')[1])
                 acc.case(sig, nontrivial=True)
+            elif invalid:
+                # e.g. the dead-code KeyError of C01 hit first: no verdict
+                acc.count('invalid_build_failed_for_another_reason')
+                acc.case(sig, nontrivial=False)
             else:
                 acc.count('constructor_raised_for_valid_program')
                 acc.case(sig, nontrivial=False)
@@ -396,8 +412,9 @@ def run_shard(spec, acc):
             root = e.__cause__ or e
             acc.violation(
                 f'C02/writer-raises/{type(root).__name__}/{site}',
-                {'case': i, 'kind': kind, 'error': repr(root)[:300],
-                 'script': gg.script(prog), 'tb': short_tb(e, 6)})
+                {'case': i, 'kind': kind,
+                 'error': safe(lambda: repr(root)[:300]),
+                 'script': gg.script(prog), 'tb': safe(short_tb, e, 6)})
             continue
         # ---- parse ----------------------------------------------------------
         problems = []
@@ -446,7 +463,7 @@ def run_shard(spec, acc):
                     site = ':'.join(sites[-1]) if sites else '?'
                     problems.append((
                         f'C02/reader-raises/{type(e).__name__}/{site}',
-                        f'{how}: {e!r}'[:300]))
+                        safe(lambda: f'{how}: {e!r}'[:300])))
                     continue
                 acc.count('reader_roundtrips')
                 for what, detail in compare_desc(desc, exp, acc):
